@@ -152,8 +152,9 @@ def run(ctx) -> None:
     # R7 the CLI propagates
     def failing(I, func, self_val, args, kwargs, node, fr):
         I.raise_exc("BinaryFileFormatNotSupported", [Str.lit("boom")], node, fr)
+    from ..matchflow import load_file_summary, produce_regex_summary
     Ic = make_interp(ctx.p, {"MasterOfPuppets.perform_matching": failing,
-                             "MasterOfPuppets.__init__": lambda I, f, s, a, k, n, fr: NONE,
+                             "Yaml2Regex.load_file": load_file_summary, "Yaml2Regex.produce_regex": produce_regex_summary,
                              "parse_args_from_console": lambda I, f, s, a, k, n, fr: Unknown("args", {"truthy": True, "expr": "args"})})
     mainf = ctx.p.find_func("main")
     paths = Ic.explore(lambda I: I.call_func(mainf, [], {}, None, None, None))
